@@ -13,19 +13,20 @@ def neg(dev, invs):
             "what": "named wrong design '%s' must be caught" % dev}
 
 
-def record_processes(ctx, n_ideal, n_nonideal, opts_extra=None, coarse=False):
+def record_processes(ctx, n_ideal, n_nonideal, opts_extra=None, coarse=False, kinds=None):
     """returns (TraceWriter, stats) of process runs: ideal kinds are cheap, non-ideal ones cost a fit each"""
     tw = TraceWriter()
     stats = {"nontrivial": set(), "outcomes": {}, "kinds": {}}
     jobs = []
     per = max(10, n_ideal // 48)
     for j in range((n_ideal + per - 1) // per):
-        o = {"kinds": ["ideal_iso", "ideal_noniso"], "coarse": coarse}
+        o = {"kinds": [k for k in (kinds or ["ideal_iso", "ideal_noniso"]) if k.startswith("ideal")] or ["ideal_noniso"], "coarse": coarse}
         o.update(opts_extra or {})
         jobs.append((ctx.seed * 7919 + 11 + j, per, o))
     per2 = max(2, n_nonideal // 32)
     for j in range((n_nonideal + per2 - 1) // per2 if n_nonideal else 0):
-        o = {"kinds": ["nonideal_iso", "nonideal_noniso"], "coarse": coarse, "maxN": 8}
+        o = {"kinds": [k for k in (kinds or ["nonideal_iso", "nonideal_noniso"]) if k.startswith("nonideal")] or ["nonideal_noniso"],
+             "coarse": coarse, "maxN": 8}
         o.update(opts_extra or {})
         jobs.append((ctx.seed * 7919 + 500011 + j, per2, o))
     for traces, st in core.parallel("harness.rec_process", "record_job", jobs):
